@@ -923,6 +923,58 @@ def _get_index_of(m, c):
     return NONE
 
 
+_ATOM_RANK = {i: r for r, i in enumerate(sorted(range(20), key=lambda i: f"v{i}"))}
+
+
+def _order_key(m, x):
+    """a value whose < is the Ord of the modelled key: atoms are the names "v<id>" (ids 0..19) in STRING order (v10 < v2)"""
+    x = m.strip(x)
+    if isinstance(x, Atom):
+        if is_sym(x.id):
+            e = z3.IntVal(_ATOM_RANK[19])
+            for i in range(18, -1, -1):
+                e = z3.If(x.id == i, z3.IntVal(_ATOM_RANK[i]), e)
+            return e
+        return _ATOM_RANK[x.id]
+    if isinstance(x, Str):
+        return x.s
+    if isinstance(x, NDT):
+        return iz(x.day) * 86400 + iz(x.sec) if (is_sym(x.day) or is_sym(x.sec)) else x.day * 86400 + x.sec
+    if isinstance(x, int) or is_sym(x):
+        return x
+    raise Unsupported(f"ordering of {type(x).__name__}")
+
+
+@model("IndexSet::binary_search", "slice::binary_search", "Vec::binary_search")
+def _binary_search(m, c):
+    """core::slice::binary_search_by as in the pinned std (base/size form); on an unsorted list the result is whatever
+    that loop yields, exactly as natively"""
+    s = m.strip(c.args[0])
+    items = list(s.items)
+    kx = _order_key(m, c.args[1])
+    def cmp(i):            # -1 / 0 / 1 for items[i] vs x
+        ki = _order_key(m, items[i])
+        if isinstance(ki, str) or isinstance(kx, str):
+            return -1 if ki < kx else 0 if ki == kx else 1
+        if m.decide(ki < kx) is True: return -1
+        if m.decide(ki == kx) is True: return 0
+        return 1
+    size = len(items)
+    if size == 0:
+        return err(0)
+    base = 0
+    while size > 1:
+        half = size // 2
+        mid = base + half
+        if cmp(mid) != 1:
+            base = mid
+        size -= half
+    r = cmp(base)
+    if r == 0:
+        return ok(base)
+    return err(base + (1 if r == -1 else 0))
+
+
 @model("IndexSet::get_index")
 def _set_get_index(m, c):
     r = c.args[0]
